@@ -401,6 +401,11 @@ class PhonopyAtoms:
 
     @masses.setter
     def masses(self, masses):
+        # Validate before storing: a rejected assignment must leave the cell as it was.
+        if masses is not None:
+            _masses = np.array(masses, dtype="double")
+            if _masses.shape != (len(self._numbers_with_shifts),):
+                raise RuntimeError("len(numbers) != len(masses).")
         self._set_masses(masses)
         self._check()
 
